@@ -1,5 +1,5 @@
-\* leg A thorough: 3 calls, everything (safety)
-SPECIFICATION Spec
+\* leg A thorough: 3 calls, Close + one fault, liveness
+SPECIFICATION FairSpec
 CONSTANTS
   NCalls = 3
   MaxDials = 3
@@ -11,14 +11,14 @@ CONSTANTS
   Dev = {}
   NoWgWait = FALSE
   ExactScan = TRUE
-  MaxFaults = 2
+  MaxFaults = 1
   Kinds = {"stale", "dead"}
-  CancelCalls = {1}
+  CancelCalls = {}
   EnvTClose = TRUE
   OrderedStart = TRUE
   Eager = FALSE
   WithHist = FALSE
 VIEW ViewNoHist
 INVARIANTS TypeOK FailOnlyWhen AttemptsBounded ErrOnFault ClosedRejects CloseClosesAll QueueBound CapBound NoSpuriousRefusal NoLeak
-
+PROPERTIES CallsEnd Released
 CHECK_DEADLOCK FALSE
